@@ -33,6 +33,32 @@ func runC09(c *Ctx) {
 	// (1) + (2) Marshal / Unmarshal
 	c.checkBitmapWire(cfg)
 
+	// (2a) a block rebuilt from (start, bytes) carries that start on every successful path — also for the empty
+	// bitmap: otherwise it silently becomes block 0 and accepts / iterates the wrong integers
+	for _, ctor := range []string{"NewBigU32FromData", "NewU32BitTipFromData"} {
+		fn := c.mustFn(rel, ctor)
+		if fn == nil {
+			continue
+		}
+		traces, _ := c.Trace(fn, cfg)
+		good, n := true, 0
+		for _, t := range traces {
+			if t.End != EndReturn || len(t.Ret) != 2 || !t.Ret[1].isNilConst() {
+				continue
+			}
+			n++
+			set := false
+			for _, e := range t.Events {
+				if e.Kind == EvStore && e.Addr.Kind == KFieldAddr && e.Addr.Field.Name() == "Start" && e.Addr.Args[0].root().Key() == t.Ret[0].root().Key() && e.Val.Key() == "$"+fn.Params[0].Name() {
+					set = true
+				}
+			}
+			if !set {
+				good = false
+			}
+		}
+		c.check(good && n > 0, "C09.block-membership", rel+"."+ctor+" start", fn.Pos(), "Start = start on every successful path", ctor+" returns a block whose Start is not the start it was given on some successful path (e.g. the empty bitmap): the block answers for the integers of another block")
+	}
 	// (2b) the block bitmaps (BigU32, U32BitTip) iterate through the 1024-bit iterators: exactly min(n, Len)
 	// members, each block handed the remaining count and the advancing write position (rule shared with C08)
 	if b1024 := c.namedType(rel, "Bit1024"); b1024 != nil {
